@@ -22,7 +22,7 @@ RULE = (
     "minimal arguments, pre-filled buckets) - same seed from two different prior states must give identical buckets and leave "
     "the state untouched; functions without a recipe are listed as skipped. Part 'runs': generated pipelines of stochastic "
     "library models and a stochastic probe with a pipeline_seed, in exposure / sequential observation / dask observation / "
-    "calibration, executed twice from different prior states (and after an unseeded or a failing run): bit-identical results, "
+    "calibration, with or without outputs written into one parent folder (the second start finds the first one's folder name taken), executed twice from different prior states (and after an unseeded or a failing run): bit-identical results, "
     "state restored, also when a model raises mid-run. Part 'leak': model functions that draw random numbers without a seed "
     "parameter must not re-seed the process-wide generator (two different prior states must stay different). Non-trivial: the "
     "pipeline is really stochastic and the two prior states differ; distinct by canonical JSON."
@@ -282,7 +282,9 @@ def run_cases(draw):
             "prior": [[draw(st.integers(0, 10**6)), draw(st.integers(0, 20))], [draw(st.integers(0, 10**6)), draw(st.integers(0, 20))]],
             "earlier": draw(st.sampled_from(["nothing", "unseeded_run", "failing_run"])),
             "pygmo_seed": draw(st.one_of(st.sampled_from([0, 0, 1, 100000]), st.integers(0, 100000))),  # "all seeds": the ends of the accepted range too
-            "fail_at": draw(st.sampled_from([None, None, "mid"])), "same_objects": draw(st.booleans())}
+            "fail_at": draw(st.sampled_from([None, None, "mid"])), "same_objects": draw(st.booleans()),
+            # outputs configured: every run of the case writes into the same parent folder, within the same second as a rule (colliding folder names)
+            "outputs": draw(st.sampled_from([False, False, True]))}
 
 
 def _run_spec(case, tmp, seeded=True, fail=False):
@@ -307,6 +309,8 @@ def _run_spec(case, tmp, seeded=True, fail=False):
     if seeded:
         spec["pipeline_seed"] = case["pipeline_seed"]
     mode = case["mode"]
+    if case.get("outputs") and mode != "calibration":
+        spec["outputs"] = {"output_folder": str(tmp / "out"), "save_data_to_file": [{"detector.pixel.array": ["npy"]}]}
     if mode == "exposure":
         spec["mode"] = {"kind": "exposure"}
     elif mode.startswith("obs"):
@@ -338,7 +342,8 @@ def _flatten(res):
 
 
 def body_runs(case, rec):
-    rec.cls(f"mode:{case['mode']}", f"earlier:{case['earlier']}", *[f"m:{k}" for k in case["models"]], "same_objects_run_twice" if case.get("same_objects") else "rebuilt_from_the_configuration")
+    rec.cls(f"mode:{case['mode']}", f"earlier:{case['earlier']}", *[f"m:{k}" for k in case["models"]], "same_objects_run_twice" if case.get("same_objects") else "rebuilt_from_the_configuration",
+            "outputs" if case.get("outputs") and case["mode"] != "calibration" else "no_outputs")
     shared_cfg = None
     rec.nt(case["prior"][0] != case["prior"][1])
     results = []
